@@ -165,6 +165,54 @@ def run_strings(rep):
         judge(part, "string-literal", text, r, rp, "string")
     rep.merge(part.result())
 
+# ---- binders over named types: the printed type of a binder must denote the same type (scalar sets are compared by name) ---------
+BINDER_DECL = ("typedef scalar[3] sid_t; typedef int[0,2] rid_t; typedef rid_t rid2_t; int bys[sid_t]; sid_t owner; int byr[rid_t]; rid_t ro; "
+               "int byi[3]; bool bb; const int N = 2; typedef int[0,N] nid_t; int byn[nid_t];")
+BINDER_TYPES = {"sid_t": ("bys", "owner"), "rid_t": ("byr", "ro"), "rid2_t": ("byr", "ro"), "nid_t": ("byn", "ro"), "int[0,2]": ("byi", "ro"),
+                "int[0,N]": ("byi", "ro"), "scalar[3]": (None, None)}
+
+
+def binder_items():
+    items = []
+    for ty, (arr, var) in BINDER_TYPES.items():
+        bodies = ["true", "bb"]
+        if arr:
+            bodies += ["%s [ s ] > 0" % arr, "s == %s" % var, "%s [ s ] == %s [ %s ]" % (arr, arr, var),
+                       "forall ( t : %s ) s == t || %s [ t ] >= %s [ s ]" % (ty, arr, arr), "exists ( t : %s ) t != s" % ty]
+        for b in bodies:
+            items.append("forall ( s : %s ) %s" % (ty, b))
+            items.append("exists ( s : %s ) %s" % (ty, b))
+            items.append("bb && ( forall ( s : %s ) %s )" % (ty, b))
+        if arr:
+            items.append("sum ( s : %s ) %s [ s ]" % (ty, arr))
+            items.append("1 + ( sum ( s : %s ) %s [ s ] * 2 )" % (ty, arr))
+    return items
+
+
+def run_binders(rep):
+    part = engine.Part()
+    w = engine.worker("fast")
+    ctx = {"kind": "decl", "text": BINDER_DECL}
+    items = binder_items()
+    for text, r in zip(items, call(w, "exprs", ctx, items, typecheck=True)):
+        part.count()
+        rp = {"op": "exprs", "ctx": ctx, "items": [text], "print": True}
+        if engine.check_crash(part, PID, r, text, rp):
+            continue
+        judge(part, "binder-expr", text, r, rp, "binder:" + text.split(":")[1].split(")")[0].strip())
+    t0 = ('<template><name>T</name><location id="id0"><name>L0</name></location><init ref="id0"/></template>')
+    import xmlgen as X
+    qctx = {"kind": "xml", "text": X.nta(BINDER_DECL, [X.template("T", locations=[X.location("id0", "L0")], init="id0")], "P = T(); system P;")}
+    qs = [q % it for it in items if not it.startswith(("sum", "1 +")) for q in ("E<> %s", "A[] %s", "E<> P.L0 && ( %s )")]
+    qs += ["sup: %s" % it for it in items if it.startswith("sum")]
+    for text, r in zip(qs, call(w, "queries", qctx, qs)):
+        part.count()
+        rp = {"op": "queries", "ctx": qctx, "items": [text], "print": True}
+        if engine.check_crash(part, PID, r, text, rp):
+            continue
+        judge(part, "binder-query", text, r, rp, "binder-query:" + text.split(":")[-1].split(")")[0].strip() if ":" in text else "binder-query")
+    rep.merge(part.result())
+
 
 # ---- queries ------------------------------------------------------------------------------------------
 QMODEL_DECL = "int a, b; clock x, y; bool p, q; int arr[3]; double z; broadcast chan ch; hybrid clock hx;"
@@ -333,6 +381,7 @@ def main():
         rep.merge(res)
     run_literals(rep)
     run_strings(rep)
+    run_binders(rep)
     for res in engine.pmap(run_queries, [(i, n) for i in range(n)]):
         rep.merge(res)
     for res in engine.pmap(run_dynamic, [(i, n) for i in range(n)]):
